@@ -14,6 +14,7 @@ import (
 	"net"
 	"os"
 	"path/filepath"
+	"runtime/debug"
 	"sort"
 	"strconv"
 	"strings"
@@ -44,6 +45,12 @@ type hist struct {
 	maybe    map[string]bool   // an upload of it failed: may or may not be there
 	foreign  map[string]bool   // blobs the server added itself
 	absentN  int
+
+	// boundary-size blobs (boundary.go): streamed, never held in data
+	big     map[string]*bigBlob // accepted or uncertain ones, by ref text
+	refused []*bigBlob          // over-limit ones the server refused: must stay invisible
+	bigBase []byte
+	bigN    int
 
 	ops     []string
 	curReq  string
@@ -276,12 +283,18 @@ func childMain() {
 		os.Exit(0)
 	}
 	hn, _ := strconv.Atoi(os.Getenv("C18_HIST"))
+	boundary := os.Getenv("C18_KIND") == "boundary"
+	label := fmt.Sprintf("history/%s/%d", cfg, hn)
+	if boundary {
+		label = fmt.Sprintf("boundary/%s", cfg)
+	}
 	nreq, _ := strconv.Atoi(os.Getenv("C18_NREQ"))
 	dir := os.Getenv("C18_DIR")
 	caseID := os.Getenv("C18_CASE")
 	h := &hist{cfg: cfg, caseID: caseID,
-		rng:  seeded(fmt.Sprintf("history/%s/%d", cfg, hn)),
+		rng:  seeded(label),
 		data: map[string][]byte{}, present: map[string]int64{}, maybe: map[string]bool{}, foreign: map[string]bool{},
+		big:    map[string]*bigBlob{},
 		srvLog: &logBuf{}, classes: map[string]int{}}
 	h.curReq = "server start"
 	srv, err := startServer(cfg, dir)
@@ -315,7 +328,13 @@ func childMain() {
 		emit(event{T: "done"})
 		os.Exit(0)
 	}
-	h.run(nreq)
+	if boundary {
+		// the store of a memory configuration holds ~150 MiB of boundary blobs: keep the heap near its live size
+		debug.SetGCPercent(25)
+		h.runBoundary()
+	} else {
+		h.run(nreq)
+	}
 	h.audit()
 	h.observeDisk()
 
@@ -326,6 +345,9 @@ func childMain() {
 	emit(event{T: "eval", N: h.evals})
 	emit(event{T: "count", Item: "http_requests_raw", N: h.raw.nreq})
 	emit(event{T: "count", Item: "blobs_at_end", N: len(h.present)})
+	if boundary {
+		emit(event{T: "peak", N: peakRSSMiB()})
+	}
 	sum := fnv.New64a()
 	for _, o := range h.ops {
 		io.WriteString(sum, o)
@@ -454,4 +476,19 @@ func (h *hist) observeDisk() {
 
 func ctx90() (context.Context, context.CancelFunc) {
 	return context.WithTimeout(context.Background(), 90*time.Second)
+}
+
+// peakRSSMiB is the child's peak resident set (VmHWM), for the evidence only.
+func peakRSSMiB() int {
+	b, _ := os.ReadFile("/proc/self/status")
+	for _, l := range strings.Split(string(b), "\n") {
+		if strings.HasPrefix(l, "VmHWM:") {
+			f := strings.Fields(l)
+			if len(f) >= 2 {
+				kb, _ := strconv.Atoi(f[1])
+				return kb >> 10
+			}
+		}
+	}
+	return 0
 }
